@@ -60,6 +60,39 @@ FAMILIES = {
     "typechain": lambda n: "\n".join("type A%d = A%d * A%d" % (i, i + 1, i + 1) for i in range(min(16, 2 * n.bit_length() - 4)))
                            + "\ntype A%d = 1\n" % min(16, 2 * n.bit_length() - 4),
 }
+
+
+def _depth(n):
+    return min(18, 2 * n.bit_length() - 4)
+
+
+def _nest(form, ctx):
+    """a term form nested d levels deep (d grows with log n: an exponential cost in the nesting depth shows as a large
+    growth factor), in a process with two provider names (expandProcesses computes its free names) or in a function"""
+    def body(n):
+        d = _depth(n)
+        out = []
+        for i in range(d):
+            if form == "recv":
+                out.append("<x%d, y%d> <- recv %s; " % (i, i, "c" if i == 0 else "y%d" % (i - 1)))
+            elif form == "split":
+                out.append("<x%d, y%d> <- split %s; " % (i, i, "c" if i == 0 else "y%d" % (i - 1)))
+            elif form == "case":
+                out.append("case %s (l<y%d> => " % ("c" if i == 0 else "y%d" % (i - 1), i))
+            elif form == "new":
+                out.append("y%d : 1 <- new close self; " % i)
+            elif form == "wait":
+                out.append("wait z%d; " % i)
+        tail = "close self" + (")" * d if form == "case" else "")
+        return "".join(out) + tail
+    if ctx == "prc2":
+        return lambda n: "prc[a, b] : 1 = " + body(n)
+    return lambda n: "let f(c : 1) : 1 = " + body(n)
+
+
+for _f in ("recv", "split", "case", "new", "wait"):
+    for _c in ("prc2", "fun"):
+        FAMILIES["nest-%s-%s" % (_f, _c)] = _nest(_f, _c)
 F30_FAMILIES = {"typechain"}
 # F28: families that go through a right-recursive list rule whose action prepends with a full copy
 F28_FAMILIES = {"decls", "types", "funs", "names", "callargs", "params", "assume", "options"}
